@@ -22,7 +22,7 @@ func init() {
 		Explanation: "the precedence and associativity table of the recursive-descent parser reached from bf.Parse is the documented one: following the left-operand callees from Parse gives the levels ';' (And), '=' (Eq), '->' (Implies), '|' (Or), '&' (And), each taking its left operand from the next tighter level and its right operand from itself, then '^' (Not, operand: itself), then the atom, whose '(' re-enters at the loosest level and requires ')', whose '{' builds Unique and which otherwise builds Var; " +
 			"bf.Parse returns a formula without error only on the path where the end of input was reached; every parser function returns a nil formula whenever it returns a non-nil error.",
 		NotDecided: "tokenisation by text/scanner, the behaviour on every corrupted text, equivalence of the parsed formula with the text for every input; nothing is executed.",
-		Rules:      []ruleFn{ruleR17_1, ruleR17_2, ruleR17_3},
+		Rules:      []ruleFn{ruleR17_1, ruleR17_2, ruleR17_3, ruleR17_4},
 	})
 }
 
